@@ -36,6 +36,37 @@ Fixpoint preserved_ok (fuel : nat) (a b : json) {struct fuel} : bool :=
       end
   end.
 
+(** [preserved_exact a b]: the same with NO allowance for null: a null-valued member is a member like any other.
+    This is what "preserved exactly" means for a spec-valid wire object: the MCP schema has no nullable member, so the
+    only nulls such an object carries sit inside free-form data (tool arguments, _meta contents, results of unknown shape)
+    -- and there [exclude_none] does not apply.  The weaker [preserved] is kept for the inputs that DO carry a null at a
+    typed position (explicit-null kinds), where the observation fixed by the property drops it by definition. *)
+Inductive preserved_exact : json -> json -> Prop :=
+| PE_same : forall j, preserved_exact j j
+| PE_arr : forall l l', Forall2 preserved_exact l l' -> preserved_exact (JArr l) (JArr l')
+| PE_obj : forall m m',
+    (forall k v, In (k, v) m -> exists v', In (k, v') m' /\ preserved_exact v v') ->
+    preserved_exact (JObj m) (JObj m').
+
+Fixpoint preserved_exact_ok (fuel : nat) (a b : json) {struct fuel} : bool :=
+  json_eqb a b ||
+  match fuel with
+  | O => false
+  | S f =>
+      match a, b with
+      | JArr l, JArr l' =>
+          (fix go (l l' : list json) {struct l} : bool :=
+             match l, l' with
+             | [], [] => true
+             | x :: l1, y :: l2 => preserved_exact_ok f x y && go l1 l2
+             | _, _ => false
+             end) l l'
+      | JObj m, JObj m' =>
+          forallb (fun kv => existsb (fun kv' => str_eqb (fst kv) (fst kv') && preserved_exact_ok f (snd kv) (snd kv')) m') m
+      | _, _ => false
+      end
+  end.
+
 Definition Spec_added (m out defaults : list (str * json)) : Prop :=
   forall k v', In (k, v') out -> (exists v, In (k, v) m) \/ In (k, v') defaults.
 
